@@ -25,6 +25,10 @@ from typing import Any, Callable, Dict, Iterable, List, Optional
 from . import env
 
 
+TRACE_FILE = os.environ.get("VCHECK_TRACE")
+SLOW_CASE_S = float(os.environ.get("VCHECK_SLOW", "0") or 0)
+
+
 class Violation(Exception):
     def __init__(self, kind: str, detail: str):
         super().__init__(f"{kind}: {detail}")
@@ -230,11 +234,18 @@ def _run_hypothesis(part: Part, ctx: Ctx) -> Optional[Dict[str, Any]]:
     @given(strategy)
     def test(case):
         env.clear_time_caches()
+        t0 = time.time()
+        if TRACE_FILE:
+            with open(TRACE_FILE, "w") as f:
+                f.write(canon({"part": part.name, "case": case}))
         try:
             part.body(case, ctx)
         except Violation as v:
             last["case"], last["v"] = case, v
             raise
+        finally:
+            if SLOW_CASE_S and time.time() - t0 > SLOW_CASE_S:
+                print(f"SLOW-CASE {time.time() - t0:.1f}s part={part.name} case={canon(case)[:3000]}", flush=True)
 
     try:
         test()
